@@ -181,7 +181,6 @@ fn run_plugins(msgs: &[PMsg], plugins: &[u8], sched: &SchedCfg, ctx: &mut Ctx) -
         ctx.sig.u64(m.special as u64 ^ ((m.variant as u64) << 8));
     }
     ctx.sig.u64(sched.seed);
-    ctx.sched = Some(sched.seed ^ input.len() as u64);
     for m in msgs {
         match m.special {
             1 => ctx.probe("traffic_nonverbose_frames"),
